@@ -16,9 +16,12 @@ import (
 	cmttypes "github.com/cometbft/cometbft/types"
 
 	beacon "github.com/oasisprotocol/oasis-core/go/beacon/api"
+	"github.com/oasisprotocol/oasis-core/go/common/cbor"
 	"github.com/oasisprotocol/oasis-core/go/common/crypto/hash"
 	"github.com/oasisprotocol/oasis-core/go/common/crypto/signature"
 	"github.com/oasisprotocol/oasis-core/go/common/verifhook"
+	consensusAPI "github.com/oasisprotocol/oasis-core/go/consensus/api"
+	"github.com/oasisprotocol/oasis-core/go/consensus/api/transaction"
 	"github.com/oasisprotocol/oasis-core/go/consensus/cometbft/abci"
 	cmtapi "github.com/oasisprotocol/oasis-core/go/consensus/cometbft/api"
 	beaconState "github.com/oasisprotocol/oasis-core/go/consensus/cometbft/apps/beacon/state"
@@ -353,6 +356,16 @@ func (e Engine) Execute(sc *core.Scenario, st *core.Stats) (*core.Violation, boo
 			core.Harnessf("chain: unknown op %q", op.K)
 		}
 		if v != nil {
+			return v, true
+		}
+		if s.Aborted != "" {
+			st.Inc("aborted_runs")
+			st.Inc("aborted." + s.Aborted)
+			return nil, false
+		}
+	}
+	if e.Prop == "C10" {
+		if v := s.liveness(); v != nil {
 			return v, true
 		}
 		if s.Aborted != "" {
@@ -789,6 +802,14 @@ func (s *Sim) produceBlock(opIdx int, b *BlockOp) *core.Violation {
 		s.Aborted = "propose-error"
 		return nil
 	}
+	if b.Byz != "" {
+		if v := s.byzantineProposal(p, blk, lastCommit, h, b.Byz); v != nil {
+			return v
+		}
+		if s.Aborted != "" {
+			return nil
+		}
+	}
 	bid, err := BlockIDOf(blk)
 	if err != nil {
 		core.Harnessf("block id: %v", err)
@@ -1011,3 +1032,181 @@ func (s *Sim) makeEvidence(sel int) cmttypes.Evidence {
 var _ = bytes.Equal
 var _ = hash.Hash{}
 var _ = governance.ModuleName
+
+// byzantineProposal derives a tampered variant of an honest proposal (the proposer is Byzantine
+// for one round) and requires every honest replica to reject it; the round is then abandoned and
+// the honest proposal follows, so the replicas carry the rejected proposal's cached state.
+func (s *Sim) byzantineProposal(p *Replica, honest *cmttypes.Block, lastCommit *cmttypes.Commit, h int64, kind string) *core.Violation {
+	txs := honest.Txs.ToSliceOfBytes()
+	if len(txs) == 0 {
+		return nil
+	}
+	meta := txs[len(txs)-1]
+	body := append([][]byte{}, txs[:len(txs)-1]...)
+	var tampered [][]byte
+	switch kind {
+	case "meta-missing":
+		tampered = body
+	case "meta-duplicate":
+		tampered = append(append(body, meta), meta)
+	case "meta-not-last":
+		// A failing transaction after the metadata changes no state, so the roots still match:
+		// accepting such a block is not a violation. Not generated.
+		return nil
+	case "meta-wrong-root", "meta-wrong-events", "meta-wrong-signer":
+		var stx transaction.SignedTransaction
+		var tx transaction.Transaction
+		var bm consensusAPI.BlockMetadata
+		if cbor.Unmarshal(meta, &stx) != nil || cbor.Unmarshal(stx.Blob, &tx) != nil || cbor.Unmarshal(tx.Body, &bm) != nil {
+			core.Harnessf("byzantine: cannot decode the block metadata transaction")
+		}
+		signer := p.Node.Identity.ConsensusSigner
+		switch kind {
+		case "meta-wrong-root":
+			bm.StateRoot[0] ^= 1
+		case "meta-wrong-events":
+			if len(bm.EventsRoot) > 0 {
+				bm.EventsRoot[0] ^= 1
+			} else {
+				bm.EventsRoot = []byte{1}
+			}
+		case "meta-wrong-signer":
+			// a validly formed metadata transaction, but signed by another validator
+			for _, r := range s.Reps {
+				if r != p && !r.Cfg.Observer {
+					signer = r.Node.Identity.ConsensusSigner
+					break
+				}
+			}
+		}
+		raw, err := SignTx(signer, consensusAPI.NewBlockMetadataTx(&bm))
+		if err != nil {
+			core.Harnessf("byzantine: sign: %v", err)
+		}
+		tampered = append(body, raw)
+	case "garbage-tx":
+		tampered = append(append([][]byte{}, body...), []byte("not-a-transaction"), meta)
+		// A garbage transaction before the metadata is an ordinary failing transaction whose
+		// effect is not reflected in the proposer's state root only if it changed state; it is
+		// legal. Not a Byzantine case: skip.
+		return nil
+	default:
+		return nil
+	}
+	var ttxs cmttypes.Txs
+	for _, t := range tampered {
+		ttxs = append(ttxs, cmttypes.Tx(t))
+	}
+	blk, err := p.State.MakeBlock(h, ttxs, lastCommit, nil, honest.ProposerAddress)
+	if err != nil {
+		core.Harnessf("byzantine: make block: %v", err)
+	}
+	s.St.Inc("fault.byzantine_proposal." + kind)
+	for _, r := range s.Reps {
+		if r == p || !r.Up || r.Cfg.Observer || r.State.LastBlockHeight != s.Height {
+			continue
+		}
+		cp, _ := CopyBlock(blk)
+		var ok bool
+		var perr error
+		pv, stack := core.Guard(func() { ok, perr = r.Process(cp) })
+		if pv != nil {
+			return s.panicViolation("ProcessProposal (Byzantine proposal)", r, pv, stack)
+		}
+		if ok && perr == nil {
+			if s.Prop == "C01" || s.Prop == "C10" {
+				return cViol(s.Prop, "byzantine-proposal-accepted", "byzantine-proposal-accepted "+kind, fmt.Sprintf("replica %d accepted a proposal for height %d whose block metadata was tampered with (%s)", r.Idx, h, kind))
+			}
+			s.Aborted = "byzantine-proposal-accepted"
+			return nil
+		}
+		s.St.Inc("probe.byzantine_proposal_rejected")
+	}
+	return nil
+}
+
+// liveness is the bounded-liveness part of C10: once faults stop (all replicas up, everybody
+// votes, no abandoned rounds, no interleaved activities) the chain must keep making progress for
+// two epochs, every replica must reach the same height, and a fresh valid transfer must succeed
+// within three blocks.
+func (s *Sim) liveness() *core.Violation {
+	for _, r := range s.Reps {
+		if !r.Up {
+			continue
+		}
+		if v := s.catchUp(r); v != nil || s.Aborted != "" {
+			return v
+		}
+	}
+	n := int(2*s.K.Gen.EpochInterval) + 1
+	// Drop everything that is still pending: the liveness phase starts from empty mempools.
+	s.Pool = nil
+	for k := range s.pendingNonce {
+		delete(s.pendingNonce, k)
+	}
+	// A fresh valid transfer from the richest plain account.
+	vw, cl := s.view()
+	if vw == nil {
+		return nil
+	}
+	best, bestBal := -1, uint64(0)
+	for i := 0; i < len(s.W.Accounts); i++ {
+		idx := len(s.W.Entities) + i
+		a := vw.Account(s.W.Addr(idx))
+		if b := a.General.Balance.ToBigInt(); b.IsUint64() && b.Uint64() > bestBal {
+			best, bestBal = idx, b.Uint64()
+		}
+	}
+	params := vw.StakingParams()
+	cl()
+	minX := params.MinTransferAmount.ToBigInt().Uint64()
+	needed := minX + 1000 + params.MinTransactBalance.ToBigInt().Uint64()
+	sent := false
+	if best >= 0 && bestBal > needed && !params.DisableTransfers {
+		if v := s.submitTx(TxOp{Kind: "transfer", From: best, To: best + 1, Amt: AmtMin, Fee: 1000}); v != nil {
+			return v
+		}
+		sent = true
+	}
+	okAt := -1
+	for i := 0; i < n; i++ {
+		before := s.Height
+		if v := s.produceBlock(-1, &BlockOp{Proposer: i, Take: 10, Dt: 1}); v != nil {
+			return v
+		}
+		if s.Aborted != "" {
+			return nil
+		}
+		if s.Height != before+1 && len(s.eligibleProposers()) == 0 {
+			// None of the replicas' validators is in the elected set any more (other entities out-staked
+			// them); the validators that would propose have no replica in this simulation.
+			s.St.Inc("probe.liveness_skipped_no_replica_in_validator_set")
+			return nil
+		}
+		if s.Height != before+1 {
+			return cViol("C10", "no-progress-after-faults", "no-progress-after-faults", fmt.Sprintf("with all faults stopped, no block could be produced at height %d", before+1))
+		}
+		if sent && okAt < 0 {
+			res := s.Results[s.Height]
+			for j, tr := range res.TxResults {
+				_ = j
+				if tr.Code == 0 && len(s.Blocks[s.Height].Txs) > 1 {
+					okAt = i
+				}
+			}
+		}
+		if sent && okAt < 0 && i >= 2 {
+			return cViol("C10", "valid-transfer-not-served", "valid-transfer-not-served", fmt.Sprintf("with all faults stopped, a fresh valid transfer submitted before height %d did not succeed within three blocks", s.Height-2))
+		}
+	}
+	for _, r := range s.Reps {
+		if r.Up && r.State.LastBlockHeight != s.Height {
+			return cViol("C10", "replica-stuck-after-faults", "replica-stuck-after-faults", fmt.Sprintf("replica %d is at height %d while the chain is at %d after the fault-free phase", r.Idx, r.State.LastBlockHeight, s.Height))
+		}
+	}
+	s.St.Inc("probe.liveness_phase_completed")
+	if sent {
+		s.St.Inc("probe.liveness_transfer_served")
+	}
+	return nil
+}
